@@ -352,10 +352,10 @@ func RunW2(opt *W2Opt, plan, sched *simrt.Source, trace bool) *RunOut {
 		return c
 	}
 	// clients
-	nClients := 1 + g.Intn(opt.MaxClients)
+	nClients := 1 + g.Intn(deep(opt.MaxClients, 3))
 	clientCalls := make([][]*Call, nClients)
 	for ci := range clientCalls {
-		n := 1 + g.Intn(opt.MaxReqs)
+		n := 1 + g.Intn(deep(opt.MaxReqs, 3))
 		for k := 0; k < n; k++ {
 			clientCalls[ci] = append(clientCalls[ci], newCall(ci, opt.Methods))
 		}
@@ -369,7 +369,7 @@ func RunW2(opt *W2Opt, plan, sched *simrt.Source, trace bool) *RunOut {
 	}
 	w.Ops = make([][]*MgmtOp, nAdmins)
 	for ai := range w.Ops {
-		n := g.Intn(opt.MaxMgmt + 1)
+		n := g.Intn(deep(opt.MaxMgmt, 1) + 1)
 		for k := 0; k < n; k++ {
 			op := g.GenPoolMgmtOp(rules, model, &ver, opt.MgmtKinds, opt.InvalidPct)
 			w.Ops[ai] = append(w.Ops[ai], op)
